@@ -110,6 +110,23 @@ class Types:
             return Variant(TL, self.tln.index("Alias"), "Alias", [Opaque(tag + ".alias-name"), self.owned(self.build(spec[1], tag + ".a"))])
         if k == "Cb":
             return Variant(TL, self.tln.index("CallbackVariable"), "CallbackVariable", [self.build(spec[1], tag + ".c")])
+        if k == "ClassWith":
+            # a class whose fields have the given types
+            ca = self.F.adt("compiler::ast::class::ClassType")
+            ia = self.F.adt("compiler::ast::ident::Ident")
+            if ca is None or ia is None:
+                raise AnchorMissing("ClassType / Ident")
+            idents = []
+            for i, ft in enumerate(spec[1]):
+                fields = []
+                for f in ia["variants"][0]["fields"]:
+                    if "TypeLayout" in f["ty"] and f["ty"].startswith("core::option::Option<"):
+                        fields.append(some(self.owned(self.build(ft, tag + ".f%d" % i))))
+                    else:
+                        fields.append(Opaque("%s.ident%d.%s" % (tag, i, f["name"])))
+                idents.append(Variant("compiler::ast::ident::Ident", 0, ia["variants"][0]["name"], fields))
+            cf = [Tup(idents) if f["name"] == "fields" else Opaque("%s.class.%s" % (tag, f["name"])) for f in ca["variants"][0]["fields"]]
+            return Variant(TL, self.tln.index("Class"), "Class", [Variant("compiler::ast::class::ClassType", 0, ca["variants"][0]["name"], cf)])
         raise ValueError(spec)
 
 
@@ -127,6 +144,8 @@ def show(spec):
         return "alias(%s)" % show(spec[1])
     if k == "Cb":
         return "captured(%s)" % show(spec[1])
+    if k == "ClassWith":
+        return "class { %s }" % "; ".join("f%d: %s" % (i, show(x)) for i, x in enumerate(spec[1]))
     return str(spec)
 
 
@@ -143,6 +162,8 @@ def unhashable(spec, rt):
         return rt.get("Vector") == "refuses" or (rt.get("Vector") == "elements" and unhashable(spec[1], rt))
     if k == "Mixed":
         return rt.get("Vector") == "refuses" or (rt.get("Vector") == "elements" and any(unhashable(x, rt) for x in spec[1]))
+    if k == "ClassWith":
+        return rt.get("Object") == "refuses" or (rt.get("Object") == "elements" and any(unhashable(x, rt) for x in spec[1]))
     return False
 
 
@@ -152,6 +173,8 @@ def universe():
     for x in inner:
         u += [("Opt", x), ("Open", x), ("Mixed", [x]), ("Mixed", ["Int", x]), ("Alias", x), ("Cb", x)]
     u += [("Open", ("Alias", "Map")), ("Opt", ("Cb", "Map"))]
+    u += [("ClassWith", ["Int"]), ("ClassWith", ["Int", "Map"]), ("ClassWith", [("Open", "Map")]), ("Open", ("ClassWith", ["Map"])),
+          ("ClassWith", [("ClassWith", ["Map"])]), ("ClassWith", ["Str", ("Opt", "Int")])]
     out, seen = [], set()
     for x in u:
         r = repr(x)
@@ -184,7 +207,22 @@ def _iter_models():
             fin.stop_when = (lambda rv: isinstance(rv, Int) and bool(rv.v) != is_all)
             return ("enter_seq", g, arglists, fin)
         return model
+    def map_or(it, p, fid, fn, t, args):
+        v = args[0]
+        if not isinstance(v, Variant) or v.adt not in ("core::result::Result", "core::option::Option"):
+            return NotImplemented
+        if v.name in ("Ok", "Some"):
+            cl = args[2]
+            if not isinstance(cl, absint.Closure):
+                return NotImplemented
+            g = it.lookup_fn(cl.defn)
+            if g is None:
+                return NotImplemented
+            return ("enter", g, [cl, v.fields[0]], None)
+        return args[1]
     return {
+        "core::result::Result::map_or": map_or,
+        "core::option::Option::map_or": map_or,
         "core::slice::<impl [T]>::iter": jumps._slice_iter,
         "core::iter::traits::collect::IntoIterator::into_iter": lambda it, p, fid, fn, t, args: (
             jumps._slice_iter(it, p, fid, fn, t, args) if isinstance(jumps.deref_all(it, p, args[0]), Tup) else (
